@@ -197,3 +197,82 @@ def run(ctx):
     # loop state untouched (continuing from an interpolated value costs O(sqrt(dt)) at every later output) -- rule of C12
     from . import c12
     ctx.guard(r12_4_state)
+
+
+_run_before_r13_4 = run
+
+
+def run(ctx):
+    _run_before_r13_4(ctx)
+    # every step of the solve is the analysed step: nothing carried over from earlier steps of the same solver object
+    # (a step-size constant cached at the first step is wrong for the clipped last step; rule of C13)
+    from . import c13
+    ctx.guard(c13.r13_4)
+
+
+# ------------------------------------------------------------------------------------------------ R01.6
+def r01_6(ctx):
+    """'... driven by the very Brownian path that was supplied': the Brownian motion the solver is constructed with is the
+    caller's object itself -- not a copy, not an object re-created "with the same entropy" (equal entropy gives another
+    path as soon as dtype, device, interval or query history differ).  The validation phase of sdeint / sdeint_adjoint is
+    evaluated (C19's scenario) with a supplied BrownianInterval whose dtype and device differ from y0's, and with a
+    BrownianPath-like object; the solver's `bm` must be that object."""
+    from . import c19
+    from ..interp import Intrinsic, Obj, SimRaise
+    rep, model = ctx.rep, ctx.model
+    rep.rule("R01.6", "the solver is constructed with the caller's Brownian object itself, whatever its dtype / device / class")
+    BI = "torchsde/_brownian/brownian_interval.py"
+    n = 0
+    for entry in ((c19.SDEINT, "sdeint"), ("torchsde/_core/adjoint.py", "sdeint_adjoint")):
+        fi = model.func(*entry)
+        rep.analysed(fi)
+        for label, cls, attrs in (
+                ("BrownianInterval of another dtype", model.cls(BI, "BrownianInterval"), {"dtype": "torch.float32", "device": "y0.device"}),
+                ("BrownianInterval on another device", model.cls(BI, "BrownianInterval"), {"dtype": "y0.dtype", "device": "cuda:1"}),
+                ("BrownianInterval like y0", model.cls(BI, "BrownianInterval"), {"dtype": "y0.dtype", "device": "y0.device"}),
+                ("BrownianPath", model.cls("torchsde/_brownian/derived.py", "BrownianPath"), {"dtype": "torch.float32", "device": "cpu"})):
+            y0 = c19.TObj((4, 3), "y0")
+            y0.attrs["dtype"], y0.attrs["device"] = "y0.dtype", "y0.device"
+            a = {"shape": (Fraction(4), Fraction(3)), "levy_area_approximation": "space-time", "entropy": nf.sym("ENTROPY", True),
+                 "_entropy": nf.sym("ENTROPY", True)}
+            a.update(attrs)
+            bm = Obj("supplied-bm", cls=cls, attrs=a)
+            class H(c19.ContractHooks):
+                def isinstance(self, interp, obj, classes):
+                    if any("Module" in repr(c) for c in classes):
+                        return True                    # the user's SDE is an nn.Module
+                    return c19.ContractHooks.isinstance(self, interp, obj, classes)
+
+                def external_call(self, interp, dotted, args, kwargs, node, fi_):
+                    if dotted.endswith("_SdeintAdjointMethod.apply"):
+                        self.solver = args[4] if len(args) > 4 else None
+                        raise SimRaise("_IntegrationStarts", "validation phase passed", node, fi_)
+                    return c19.ContractHooks.external_call(self, interp, dotted, args, kwargs, node, fi_)
+            hooks = H()
+            sde = c19.make_user_sde()
+            theta = c19.TObj((3,), "theta", requires_grad=True)
+            sde.attrs["parameters"] = Intrinsic("parameters", lambda it, a_, k, n_, f: [theta])
+            r = c19.eval_check_contract(model, sde=sde, y0=y0, bm=bm, method="euler", hooks=hooks, entry=entry,
+                                        extra_kw={"adjoint_params": [theta]} if entry[1] == "sdeint_adjoint" else None)
+            construct = f"{fi.key}::R01.6::{label}"
+            n += 1
+            if r[0] != "ok":
+                rep.fail("R01.6", astq.loc(fi), construct, f"a supplied {label} is rejected: {r[1:]}")
+                continue
+            solver = getattr(hooks, "solver", None)
+            if solver is None:
+                raise AnalysisError("the validation phase did not end in a solver call", where=astq.loc(fi))
+            got = solver.attrs.get("bm")
+            rep.check(got is bm, "R01.6", astq.loc(fi), construct,
+                      f"{entry[1]} is given a {label} but constructs the solver with `{got!r}`: the solve is driven by another "
+                      f"sample path than the one supplied ({len(hooks.default_bm)} Brownian object(s) were created on the way)",
+                      "solver.bm is the supplied object")
+    ctx.floor("R01.6", 8)
+
+
+_run_before_r01_6 = run
+
+
+def run(ctx):
+    _run_before_r01_6(ctx)
+    ctx.guard(r01_6)
